@@ -179,6 +179,7 @@ def cleanup_scratch():
 
 
 SKIP_DIRS = (".git", ".hg")
+LINK_MARK = "\0->"
 
 
 def snapshot(path):
@@ -189,6 +190,9 @@ def snapshot(path):
         for fn in sorted(filenames):
             full = os.path.join(dirpath, fn)
             rel = os.path.relpath(full, path)
+            if os.path.islink(full):
+                # the kind of a directory entry is part of the state: "<path>\0->" holds the link text
+                out[rel + LINK_MARK] = os.readlink(full).encode("utf-8", "surrogateescape")
             try:
                 with open(full, "rb") as fobj:
                     out[rel] = fobj.read()
@@ -214,10 +218,21 @@ def dir_digest(path):
 def write_tree(path, files):
     """files: relative path -> bytes"""
     for rel, data in files.items():
+        if rel.endswith(LINK_MARK):
+            continue
         full = os.path.join(path, rel)
         os.makedirs(os.path.dirname(full), exist_ok=True)
+        if rel + LINK_MARK in files:
+            continue      # a symbolic link: its content is that of the target, written under the target's own name
         with open(full, "wb") as fobj:
             fobj.write(data)
+    for rel, data in files.items():
+        if rel.endswith(LINK_MARK):
+            full = os.path.join(path, rel[:-len(LINK_MARK)])
+            os.makedirs(os.path.dirname(full), exist_ok=True)
+            if os.path.lexists(full):
+                os.unlink(full)
+            os.symlink(data.decode("utf-8", "surrogateescape"), full)
 
 
 class Result:
